@@ -40,7 +40,6 @@ SPACES = {
 _SUM = "lambda d: int(sum(d.to_numbers()) * 2)"
 _KEY = "lambda d: hash(tuple(d.to_numbers()))"
 _MEAN = "lambda rs: sum(rs) / len(rs)"
-_MEAN2 = "lambda rs: tuple(sum(c) / len(rs) for c in zip(*rs))"
 
 
 def _det_configs(tier, seed):
@@ -62,13 +61,13 @@ def _det_configs(tier, seed):
       ('dedup-sweeping',
        f"pg.geno.Deduping(pg.geno.Sweeping(), hash_fn={_SUM}, max_proposal_attempts=2)",
        ['cond', 'many']),
-      ('dedup-random', f"pg.geno.Deduping(pg.geno.Random(seed={s1}))",
+      ('dedup-random', f"pg.geno.Deduping(pg.geno.Random(seed={s1}), max_proposal_attempts=6)",
        ['c3', 'c2xc3', 'cond', 'float']),
       ('dedup-random',
-       f"pg.geno.Deduping(pg.geno.Random(seed={s2}), max_duplicates=2)",
+       f"pg.geno.Deduping(pg.geno.Random(seed={s2}), max_duplicates=2, max_proposal_attempts=6)",
        ['c3', 'c2xc3']),
       ('dedup-random',
-       f"pg.geno.Deduping(pg.geno.Random(seed={s1}), hash_fn={_SUM}, max_duplicates=3)",
+       f"pg.geno.Deduping(pg.geno.Random(seed={s1}), hash_fn={_SUM}, max_duplicates=3, max_proposal_attempts=6)",
        ['c2xc3', 'float']),
       ('dedup-random',
        f"pg.geno.Deduping(pg.geno.Random(seed={s2}), hash_fn={_SUM}, "
@@ -79,10 +78,10 @@ def _det_configs(tier, seed):
     for s in (11 + seed, 23 + seed, 31 + seed):
       cfgs.append(('random', f"pg.geno.Random(seed={s})", discrete + ['float']))
       cfgs.append(('dedup-random',
-                   f"pg.geno.Deduping(pg.geno.Random(seed={s}), max_duplicates=2)",
+                   f"pg.geno.Deduping(pg.geno.Random(seed={s}), max_duplicates=2, max_proposal_attempts=8)",
                    discrete))
       cfgs.append(('dedup-random',
-                   f"pg.geno.Deduping(pg.geno.Random(seed={s}), hash_fn={_SUM})",
+                   f"pg.geno.Deduping(pg.geno.Random(seed={s}), hash_fn={_SUM}, max_proposal_attempts=8)",
                    discrete + ['float']))
     cfgs.append(('dedup-sweeping',
                  f"pg.geno.Deduping(pg.geno.Sweeping(), hash_fn={_SUM}, max_duplicates=3)",
@@ -91,81 +90,82 @@ def _det_configs(tier, seed):
 
 
 def _evo_configs(tier, seed):
-  """(kind, expr, multi_objective, spaces)."""
+  """(kind, expr, multi_objective, single_child, spaces).
+
+  single_child: every evolution step yields exactly one child (so there are
+  never undelivered children of a batch at a crash point).
+  """
   s = 1 + seed
   mut = f"ev.mutators.Uniform(seed={s})"
   cfgs = [
       ('regularized_evolution',
        f"ev.regularized_evolution({mut}, population_size=3, tournament_size=2, seed={s})",
-       False, ['c2xc3', 'float']),
+       False, True, ['c2xc3', 'float']),
       ('regularized_evolution',
        f"ev.regularized_evolution({mut}, population_size=4, tournament_size=3, seed={s + 1})",
-       False, ['cond']),
+       False, True, ['cond', 'many']),
       ('hill_climb',
        f"ev.hill_climb({mut}, batch_size=1, init_population_size=1, seed={s})",
-       False, ['c2xc3', 'float']),
+       False, True, ['float', 'c2xc3']),
       ('hill_climb',
        f"ev.hill_climb({mut}, batch_size=2, init_population_size=2, seed={s})",
-       False, ['cond', 'many']),
+       False, False, ['cond', 'many']),
       ('nsga2', f"ev.nsga2({mut}, population_size=2, seed={s})",
-       True, ['c2xc3', 'float']),
+       True, True, ['c2xc3', 'float']),
       ('neat', f"ev.neat({mut}, population_size=3, seed={s})",
-       False, ['c2xc3', 'cond']),
+       False, False, ['c2xc3', 'cond']),
       ('evolution',
        f"ev.Evolution(ev.selectors.Top(1) >> {mut}, "
        "population_init=(pg.geno.Sweeping(), 3), "
        "population_update=ev.selectors.Last(4))",
-       False, ['c2xc3']),
-      ('evolution',
+       False, True, ['c2xc3', 'cond']),
+      ('evolution-unsized-init',
        f"ev.Evolution(ev.selectors.Top(1) >> {mut}, "
        "population_init=pg.geno.Sweeping(), "
        "population_update=ev.selectors.Last(2))",
-       False, ['c3']),
+       False, True, ['c3']),
   ]
   if tier != 'quick':
     cfgs += [
         ('regularized_evolution',
          f"ev.regularized_evolution({mut}, population_size=5, tournament_size=2, seed={s + 2})",
-         False, ['many', 'c3']),
+         False, True, ['many', 'c3']),
         ('hill_climb',
          f"ev.hill_climb({mut}, batch_size=3, init_population_size=3, seed={s + 2})",
-         False, ['float', 'c2xc3']),
+         False, False, ['float', 'c2xc3']),
         ('nsga2', f"ev.nsga2({mut}, population_size=3, seed={s + 2})",
-         True, ['cond', 'many']),
+         True, True, ['cond', 'many']),
         ('neat', f"ev.neat({mut}, population_size=4, seed={s + 2})",
-         False, ['float', 'many']),
+         False, False, ['float', 'many']),
     ]
   return cfgs
 
 
 def _dedup_evo_configs(tier, seed):
+  """Same tuple layout as _evo_configs (kind is always dedup-evolution)."""
   s = 1 + seed
   mut = f"ev.mutators.Uniform(seed={s})"
   reg = f"ev.regularized_evolution({mut}, population_size=3, tournament_size=2, seed={s})"
-  hill = f"ev.hill_climb({mut}, batch_size=2, init_population_size=2, seed={s})"
-  nsga = f"ev.nsga2({mut}, population_size=2, seed={s})"
+  hill = f"ev.hill_climb({mut}, batch_size=1, init_population_size=2, seed={s})"
   cfgs = [
       ('dedup-evolution', f"pg.geno.Deduping({reg}, hash_fn={_KEY})",
-       False, ['c2xc3']),
+       False, True, ['c2xc3', 'cond']),
       ('dedup-evolution',
        f"pg.geno.Deduping({reg}, hash_fn={_KEY}, max_duplicates=2)",
-       False, ['c3']),
+       False, True, ['c3', 'many']),
       ('dedup-evolution',
        f"pg.geno.Deduping({hill}, hash_fn={_KEY}, auto_reward_fn={_MEAN})",
-       False, ['c3', 'c2xc3']),
-      ('dedup-evolution',
-       f"pg.geno.Deduping({nsga}, hash_fn={_KEY}, auto_reward_fn={_MEAN2}, max_duplicates=2)",
-       True, ['c3']),
+       False, True, ['c3', 'c2xc3']),
   ]
   if tier != 'quick':
     neat = f"ev.neat({mut}, population_size=3, seed={s})"
     cfgs += [
         ('dedup-evolution',
          f"pg.geno.Deduping({neat}, hash_fn={_KEY}, auto_reward_fn={_MEAN})",
-         False, ['c2xc3', 'cond']),
+         False, False, ['c2xc3', 'cond']),
         ('dedup-evolution',
          f"pg.geno.Deduping({reg}, hash_fn={_SUM}, auto_reward_fn={_MEAN}, max_duplicates=2)",
-         False, ['many', 'float']),
+         False, True, ['many', 'float']),
     ]
   return cfgs
 
@@ -305,6 +305,14 @@ def _elites(algo):
   return [(str(d), d.metadata.get('reward')) for d in gs['elites']]
 
 
+def _species(algo):
+  gs = algo.global_state
+  if 'living_species' not in gs:
+    return None
+  return [[(str(d), d.metadata.get('reward')) for d in sp.members]
+          for sp in gs['living_species']]
+
+
 def _cache(algo):
   c = getattr(algo, '_cache', None)
   if c is None:
@@ -324,6 +332,7 @@ def _observe(algo):
     o['pop_ids'] = _pop_ids(inner)
     o['gens'] = inner.num_generations
     o['elites'] = _elites(inner)
+    o['species'] = _species(inner)
   return o
 
 
@@ -348,19 +357,19 @@ class _Run:
     self.executed = []       # executed events so far
     self.snaps = []          # one per prefix (incl. the empty one)
     self.stopped = False
+    self.error = None        # the algorithm itself failed (not a C15 matter)
     self._snap()
     for e in events:
       if e == 'p':
-        if not self._propose(rewards):
+        if not self._propose():
           break
       else:
         if e >= len(self.dnas) or self.rewards[e] is not None:
           continue
         self._feed(e, rewards[e])
     # Continuation of the uninterrupted run (deterministic generators).
-    self.n_at_end = len(self.dnas)
     self.tail = []
-    if extra:
+    if extra and not self.stopped and self.error is None:
       for _ in range(extra):
         try:
           self.tail.append(str(self.algo.propose()))
@@ -368,11 +377,16 @@ class _Run:
           self.tail.append('STOP')
           break
 
-  def _propose(self, rewards):
+  def _propose(self):
     try:
       d = self.algo.propose()
     except StopIteration:
       self.stopped = True
+      return False
+    except Exception as e:  # pylint: disable=broad-except
+      # E.g. NEAT divides by zero when all members of the population have
+      # the same fitness.  The uninterrupted run ends here.
+      self.error = e
       return False
     self.dnas.append(d)
     self.rewards.append(None)
@@ -410,7 +424,7 @@ class _Run:
     ))
 
   def all_proposals(self):
-    """str(DNA) of proposals 1..; 'STOP' appended if the run is exhausted."""
+    """str(DNA) of all proposals; 'STOP' appended if the run is exhausted."""
     out = [str(d) for d in self.dnas]
     if self.stopped:
       return out + ['STOP']
@@ -418,9 +432,9 @@ class _Run:
 
 
 def _history(run, snap, variant):
+  hist = [(d, r) for d, r in pg.from_json_str(snap['hist_json'])]
   if variant == 'crash':
-    return [(d, r) for d, r in pg.from_json_str(snap['hist_json'])]
-  hist = [[d, r] for d, r in pg.from_json_str(snap['hist_json'])]
+    return hist
   out = []
   for i, (d, r) in enumerate(hist):
     if variant == 'proposal' or (variant == 'mixed' and i == snap['last_fed']):
@@ -475,15 +489,18 @@ _W_PICK = {
     'mixed': 'pg.from_json_str(J[i]) if i==F[-1] else d',
 }
 
+_G = "getattr(g,'generator',g)"
 _W_CHECK = {
     'counts': "f=lambda g:(g.num_proposals,g.num_feedbacks)",
     'inner_counts': "f=lambda g:(g.generator.num_proposals,g.generator.num_feedbacks)",
-    'pop': "f=lambda g:[(str(d),d.metadata.get('reward')) for d in getattr(g,'generator',g).population]",
+    'pop': f"f=lambda g:[(str(d),d.metadata.get('reward')) for d in {_G}.population]",
     'pop_ids': ("f=lambda g:[[d.metadata.get(k) for k in ('proposal_id','feedback_sequence_number',"
-                "'generation_id')] for d in getattr(g,'generator',g).population]"),
-    'gens': "f=lambda g:getattr(g,'generator',g).num_generations",
+                f"'generation_id')] for d in {_G}.population]"),
+    'gens': f"f=lambda g:{_G}.num_generations",
     'elites': ("f=lambda g:[(str(d),d.metadata.get('reward')) for d in "
-               "getattr(g,'generator',g).global_state.get('elites',[])]"),
+               f"{_G}.global_state.get('elites',[])]"),
+    'species': ("f=lambda g:[[(str(d),d.metadata.get('reward')) for d in s.members] for s in "
+                f"{_G}.global_state.get('living_species',[])]"),
     'cache': "f=lambda g:g._cache",
     'cache_counts': "f=lambda g:{k:len(v) for k,v in g._cache.items()}",
     'cache_sorted': "f=lambda g:{k:sorted(v,key=repr) for k,v in g._cache.items()}",
@@ -516,216 +533,264 @@ def _witness(space_expr, algo_expr, snap, variant, check, chunk=None, m=0):
 
 
 # ---------------------------------------------------------------------------
+# Scope selection.
+# ---------------------------------------------------------------------------
+
+_QUICK_DET = ['lag1', 'holes3', 'lockstep', 'rev2', 'lag2']
+_IN_ORDER = ['lockstep', 'lag1', 'lag2', 'burst2', 'tail3']
+_OUT_OF_ORDER = ['rev2', 'late0']
+
+
+def _det_combos(tier, seed, n):
+  """Yields (kind, algo_expr, space_name, pattern_name, class, events)."""
+  for ci, (kind, algo_expr, spaces) in enumerate(_det_configs(tier, seed)):
+    if tier == 'quick':
+      spaces = [spaces[(seed + j) % len(spaces)] for j in range(min(2, len(spaces)))]
+    for j, sp in enumerate(spaces):
+      pats = _patterns(n, tier, seed, f'{algo_expr}-{sp}')
+      if tier == 'quick':
+        want = {_QUICK_DET[(ci + j + seed) % len(_QUICK_DET)]}
+        if j == 0:
+          want.add('lag1')
+        pats = [p for p in pats if p[0] in want]
+      for pname, pcls, events in pats:
+        yield kind, algo_expr, sp, pname, pcls, events
+
+
+def _evo_combos(configs, tier, seed, n):
+  for ci, (kind, algo_expr, multi, single, spaces) in enumerate(configs):
+    if tier == 'quick':
+      spaces = [spaces[(seed + ci) % len(spaces)]]
+    for j, sp in enumerate(spaces):
+      pats = _patterns(n, tier, seed, f'{algo_expr}-{sp}')
+      if tier == 'quick':
+        want = {_IN_ORDER[(ci + j + seed) % len(_IN_ORDER)], 'holes3',
+                _OUT_OF_ORDER[(ci + j + seed) % len(_OUT_OF_ORDER)]}
+        pats = [p for p in pats if p[0] in want]
+      for pname, pcls, events in pats:
+        yield kind, algo_expr, multi, single, sp, pname, events
+
+
+# ---------------------------------------------------------------------------
 # Drivers.
 # ---------------------------------------------------------------------------
 
-def _crash_points(run, tier):
-  return range(len(run.snaps))
-
-
 def drv_recover_deterministic(tier, seed):
-  n = 7 if tier == 'quick' else 10
-  m = 4 if tier == 'quick' else 8
+  quick = tier == 'quick'
+  n = 6 if quick else 10
+  m = 3 if quick else 8
   rec = Recorder(
       'C15', 'recover(): Sweeping / Random(seed) / Deduping over them',
-      scope=(f'{"quick" if tier == "quick" else "thorough"}: Sweeping, Random(seed), Deduping(Sweeping|Random) with '
-             'hash_fn/max_duplicates/auto_reward_fn/max_proposal_attempts variants; spaces: '
-             'oneof3, 2x3, conditional, manyof(2 of 4), oneof x float; '
-             f'N<={n} proposals; feedback patterns lockstep/lag1-2/burst/tail/holes/'
-             'reversed/late (thorough: more + seeded random interleavings); crash after EVERY '
-             'event prefix; history through pg JSON with DNA metadata as of crash / as of proposal; '
-             f'continuation compared for {m} further proposals; recover in one and in two calls'))
-  for kind, algo_expr, spaces in _det_configs(tier, seed):
-    for sp in spaces:
-      space_expr = SPACES[sp]
-      r = rng(seed, f'c15-det-{algo_expr}-{sp}')
-      rewards = _rewards(n + 2, False, r)
-      pats = _patterns(n, tier, seed, f'{algo_expr}-{sp}')
-      if tier == 'quick':
-        # Proposals of these generators do not depend on feedback; keep the
-        # patterns that differ in what the history looks like.
-        pats = [p for p in pats if p[0] in ('lockstep', 'lag2', 'holes3', 'rev2')]
-      for pname, pcls, events in pats:
-        run = rec.guard(f'det.uninterrupted-run-error/{kind}', (algo_expr, sp, pname),
-                        lambda: _Run(algo_expr, space_expr, events, rewards, extra=m + 1),
-                        witness=f'# uninterrupted run of {algo_expr} on {space_expr} raised')
-        if run is None or run is False:
-          continue
-        allp = run.all_proposals()
-        for ci in _crash_points(run, tier):
-          snap = run.snaps[ci]
-          variants = ['crash']
-          if ci % 3 == 1 or tier != 'quick':
-            variants.append('proposal')
-          for variant in variants:
-            key = (algo_expr, sp, pname, ci, variant)
-            hist = _history(run, snap, variant)
-            chunks = [None]
-            if snap['k'] >= 2 and variant == 'crash' and (ci % 2 == 0 or tier != 'quick'):
-              chunks.append(snap['k'] // 2)
-            for chunk in chunks:
-              pre = 'det' if chunk is None else 'det.two-recover-calls'
-              try:
-                b = _recovered(algo_expr, run.space, hist, chunk)
-              except Exception as e:  # pylint: disable=broad-except
-                rec.case(f'{pre}.recover-raises/{kind}', key, False,
-                         f'recover raised {type(e).__name__}: {e}',
-                         _witness(space_expr, algo_expr, snap, variant, 'counts', chunk))
-                continue
-              ob = _observe(b)
-              oa = snap['obs']
-              rec.case(f'{pre}.counts/{kind}', key, ob['counts'] == oa['counts'],
-                       f'recovered (num_proposals, num_feedbacks)={ob["counts"]}, uninterrupted {oa["counts"]}',
-                       _witness(space_expr, algo_expr, snap, variant, 'counts', chunk))
-              if 'cache' in oa and oa['cache'] is not None and ob.get('cache') is not None:
-                ca = {k: len(v) for k, v in oa['cache'].items()}
-                cb = {k: len(v) for k, v in ob['cache'].items()}
-                rec.case(f'{pre}.dedup-memory/{kind}', key, ca == cb,
-                         f'recovered key->count {cb}, uninterrupted {ca}',
-                         _witness(space_expr, algo_expr, snap, variant, 'cache_counts', chunk))
-              want = allp[snap['k']:snap['k'] + m]
-              if 'STOP' in want:
-                want = want[:want.index('STOP') + 1]
-              got = _continue(b, len(want)) if want else []
-              cid = f'{pre}.continuation/{kind}'
-              if kind == 'dedup-random':
-                cid += ('/rejected-duplicates-before-crash' if snap['rejected']
-                        else '/no-rejected-duplicates-before-crash')
-              rec.case(cid, key, got == want,
-                       f'recovered instance continues with {got}, uninterrupted run with {want}',
-                       _witness(space_expr, algo_expr, snap, variant, 'continuation', chunk,
-                                m=len(want)),
-                       nontrivial=bool(want))
+      scope=('Sweeping, Random(seed), Deduping(Sweeping|Random) with hash_fn / max_duplicates 1-3 / '
+             'auto_reward_fn / max_proposal_attempts variants; spaces oneof3, 2x3, conditional, '
+             f'manyof(2 of 4), oneof x float; N<={n} proposals; feedback patterns lockstep, lag 1-2, '
+             'holes, reversed pairs (thorough: + lag3, bursts, tails, no feedback, late first, seeded '
+             'random interleavings; quick: 2 spaces x 1-2 patterns per configuration, rotated by '
+             'seed); crash after EVERY event prefix; history through pg JSON with DNA metadata as '
+             f'of crash and as of proposal; continuation compared for {m} further proposals incl. '
+             'exhaustion; recover() in one call and split in two calls'))
+  for kind, algo_expr, sp, pname, _, events in _det_combos(tier, seed, n):
+    space_expr = SPACES[sp]
+    r = rng(seed, f'c15-det-{algo_expr}-{sp}')
+    rewards = _rewards(n + 2, False, r)
+    run = rec.guard(f'det.uninterrupted-run-error/{kind}', (algo_expr, sp, pname),
+                    lambda: _Run(algo_expr, space_expr, events, rewards, extra=m + 1),  # pylint: disable=cell-var-from-loop
+                    witness=f'# uninterrupted run of {algo_expr} on {space_expr} raised')
+    if run is None or run is False:
+      continue
+    allp = run.all_proposals()
+    for ci, snap in enumerate(run.snaps):
+      variants = ['crash']
+      if not quick or ci % 3 == 1:
+        variants.append('proposal')
+      for variant in variants:
+        chunks = [None]
+        if snap['k'] >= 2 and variant == 'crash' and (not quick or ci % 3 == 0):
+          chunks.append(snap['k'] // 2)
+        for chunk in chunks:
+          key = (algo_expr, sp, pname, ci, variant, chunk)
+          hist = _history(run, snap, variant)
+          pre = 'det' if chunk is None else 'det.two-recover-calls'
+          try:
+            b = _recovered(algo_expr, run.space, hist, chunk)
+          except Exception as e:  # pylint: disable=broad-except
+            rec.case(f'{pre}.recover-raises/{kind}', key, False,
+                     f'recover raised {type(e).__name__}: {e}',
+                     _witness(space_expr, algo_expr, snap, variant, 'counts', chunk))
+            continue
+          ob = _observe(b)
+          oa = snap['obs']
+          rec.case(f'{pre}.counts/{kind}', key, ob['counts'] == oa['counts'],
+                   f'recovered (num_proposals, num_feedbacks)={ob["counts"]}, '
+                   f'uninterrupted {oa["counts"]}',
+                   _witness(space_expr, algo_expr, snap, variant, 'counts', chunk))
+          if oa.get('cache') is not None and ob.get('cache') is not None:
+            ca = {k: len(v) for k, v in oa['cache'].items()}
+            cb = {k: len(v) for k, v in ob['cache'].items()}
+            rec.case(f'{pre}.dedup-memory/{kind}', key, ca == cb,
+                     f'recovered key->count {cb}, uninterrupted {ca}',
+                     _witness(space_expr, algo_expr, snap, variant, 'cache_counts', chunk))
+          want = allp[snap['k']:snap['k'] + m]
+          if 'STOP' in want:
+            want = want[:want.index('STOP') + 1]
+          got = _continue(b, len(want)) if want else []
+          cid = f'{pre}.continuation/{kind}'
+          if kind == 'dedup-random':
+            cid += ('/rejected-duplicates-before-crash' if snap['rejected']
+                    else '/no-rejected-duplicates-before-crash')
+          rec.case(cid, key, got == want,
+                   f'recovered instance continues with {got}, uninterrupted run with {want}',
+                   _witness(space_expr, algo_expr, snap, variant, 'continuation', chunk,
+                            m=len(want)),
+                   nontrivial=bool(want))
   return rec.result()
 
 
-def _evo_checks(rec, pre, kind, pcls, key, oa, ob, snap, nxt, space_expr, algo_expr, variant,
-                b, dedup):
-  """Compares the observable state of an Evolution (possibly inside Deduping)."""
-  def w(check):
-    return _witness(space_expr, algo_expr, snap, variant, check)
+def _order(cls):
+  return 'out-of-order-feedback' if cls == 'out-of-order' else 'in-order-feedback'
+
+
+def _evo_checks(rec, pre, kind, single, cls, key, oa, ob, snap, nxt, b, wit, dedup):
+  """Compares the observable state of an Evolution (possibly inside Deduping).
+
+  Checks that are mere consequences of an earlier failed check of the same
+  recovery are skipped, so that one defect yields one case id.
+  """
+  order = _order(cls)
   in_flight = any(r is None for r in snap['rewards'])
-  rec.case(f'{pre}.counts/{pcls}', key, ob['counts'] == oa['counts'],
-           f'recovered (num_proposals, num_feedbacks)={ob["counts"]}, uninterrupted {oa["counts"]}',
-           w('counts'))
+  counts_ok = rec.case(
+      f'{pre}.counts', key, ob['counts'] == oa['counts'],
+      f'recovered (num_proposals, num_feedbacks)={ob["counts"]}, uninterrupted {oa["counts"]}',
+      wit('counts'))
+  inner_ok = True
   if dedup:
-    rec.case(f'{pre}.inner-counts/{pcls}', key, ob['inner_counts'] == oa['inner_counts'],
-             f'inner algorithm recovered with counts {ob["inner_counts"]}, '
-             f'uninterrupted {oa["inner_counts"]}', w('inner_counts'))
+    inner_ok = rec.case(
+        f'{pre}.inner-counts', key, ob['inner_counts'] == oa['inner_counts'],
+        f'inner algorithm recovered with (num_proposals, num_feedbacks)={ob["inner_counts"]}, '
+        f'uninterrupted {oa["inner_counts"]}', wit('inner_counts'))
     if oa['cache'] is not None and ob['cache'] is not None:
-      if pcls == 'out-of-order':
+      if cls == 'out-of-order':
         norm = lambda c: {k: sorted(v, key=repr) for k, v in c.items()}
         chk = 'cache_sorted'
       else:
         norm = lambda c: c
         chk = 'cache'
-      rec.case(f'{pre}.dedup-memory/{pcls}/' +
-               ('with-in-flight-proposals' if in_flight else 'all-fed-back'),
+      rec.case(f'{pre}.dedup-memory/' +
+               ('with-in-flight-proposals' if in_flight else 'all-proposals-fed-back'),
                key, norm(ob['cache']) == norm(oa['cache']),
-               f'recovered key->rewards {ob["cache"]}, uninterrupted {oa["cache"]}', w(chk))
-  if pcls == 'out-of-order':
-    ok = sorted(ob['pop'], key=repr) == sorted(oa['pop'], key=repr)
-    rec.case(f'{pre}.population-as-multiset/{pcls}', key, ok,
-             f'recovered population {ob["pop"]}, uninterrupted {oa["pop"]}', w('pop'))
-  rec.case(f'{pre}.population/{pcls}', key, ob['pop'] == oa['pop'],
-           f'recovered population {ob["pop"]}, uninterrupted {oa["pop"]}', w('pop'))
-  if ob['pop'] == oa['pop']:
-    rec.case(f'{pre}.population-ids/{pcls}', key, ob['pop_ids'] == oa['pop_ids'],
-             f'(proposal_id, feedback_sequence_number, generation_id) of the population: '
-             f'recovered {ob["pop_ids"]}, uninterrupted {oa["pop_ids"]}', w('pop_ids'))
-  phase = 'initial-population-phase' if (nxt is not None and nxt[1][1]) else 'evolving'
+               f'recovered key->rewards {ob["cache"]}, uninterrupted {oa["cache"]}', wit(chk))
+  pop_ok = rec.case(
+      f'{pre}.population/{order}', key, ob['pop'] == oa['pop'],
+      f'recovered population {ob["pop"]}, uninterrupted {oa["pop"]}', wit('pop'))
+  if pop_ok and inner_ok:
+    rec.case(f'{pre}.population-ids/{order}', key, ob['pop_ids'] == oa['pop_ids'],
+             f'(proposal_id, feedback_sequence_number, generation_id) of the population members: '
+             f'recovered {ob["pop_ids"]}, uninterrupted {oa["pop_ids"]}', wit('pop_ids'))
+  if pop_ok and oa['elites'] is not None:
+    rec.case(f'{pre}.nsga2-elites/{order}', key, ob['elites'] == oa['elites'],
+             f'recovered elites {ob["elites"]}, uninterrupted {oa["elites"]}', wit('elites'))
+  if pop_ok and oa['species'] is not None:
+    rec.case(f'{pre}.neat-species/{order}', key, ob['species'] == oa['species'],
+             f'recovered species {ob["species"]}, uninterrupted {oa["species"]}', wit('species'))
   if nxt is None:
-    phase = 'any'
-  rec.case(f'{pre}.num_generations/{pcls}', key, ob['gens'] == oa['gens'],
-           f'recovered num_generations {ob["gens"]}, uninterrupted {oa["gens"]}', w('gens'),
-           nontrivial=False)
-  if kind == 'nsga2' or 'nsga2' in algo_expr:
-    rec.case(f'{pre}.nsga2-elites/{pcls}', key,
-             (ob['elites'] == oa['elites']) if pcls != 'out-of-order'
-             else (sorted(ob['elites'] or [], key=repr) == sorted(oa['elites'] or [], key=repr)),
-             f'recovered elites {ob["elites"]}, uninterrupted {oa["elites"]}', w('elites'))
-  if nxt is not None:
-    # The uninterrupted run proposes next; its proposal id and whether it still
-    # belongs to the initial population are functions of the recovered state.
-    try:
-      d = b.propose()
-      got = (_next_meta(d), d.metadata.get('generation_id'))
-      err = None
-    except Exception as e:  # pylint: disable=broad-except
-      got, err = None, f'{type(e).__name__}: {e}'
-    rec.case(f'{pre}.next-proposal/{pcls}/{phase}', key,
-             got is not None and got[0] == nxt[1],
-             f'next proposal of the recovered instance has (proposal_id, initial_population)='
-             f'{got and got[0]} ({err}), the uninterrupted run proposes {nxt[1]}', w('next'))
-    if got is not None and got[0] == nxt[1]:
-      rec.case(f'{pre}.next-proposal-generation/{pcls}/{phase}', key, got[1] == nxt[2],
-               f'generation_id of the next proposal: recovered {got[1]}, uninterrupted {nxt[2]}',
-               w('next_gen'))
+    phase = 'phase-unknown'
+  else:
+    phase = 'initial-population-phase' if nxt[1][1] else 'evolving-phase'
+  gens_ok = True
+  if inner_ok:
+    gens_ok = rec.case(
+        f'{pre}.num_generations/{phase}', key, ob['gens'] == oa['gens'],
+        f'recovered num_generations {ob["gens"]}, uninterrupted {oa["gens"]}', wit('gens'))
+  if nxt is None or not (counts_ok and inner_ok):
+    return
+  # The uninterrupted run proposes next.  The id of that proposal and whether
+  # it still belongs to the initial population are functions of the state.
+  try:
+    d = b.propose()
+    got = (_next_meta(d), d.metadata.get('generation_id'))
+    err = None
+  except Exception as e:  # pylint: disable=broad-except
+    got, err = None, f'{type(e).__name__}: {e}'
+  if got is None and not single:
+    # Batch algorithms lose undelivered children of the current batch and
+    # must evolve again, which may fail for reasons unrelated to recovery
+    # (NEAT divides by zero on a population with equal fitness).
+    return
+  ok = rec.case(
+      f'{pre}.next-proposal/{phase}', key, got is not None and got[0] == nxt[1],
+      f'next proposal of the recovered instance has (proposal_id, initial_population)='
+      f'{got and got[0]} (error: {err}); the uninterrupted run proposes {nxt[1]}', wit('next'))
+  if ok and gens_ok and single:
+    tag = 'unsized-initializer' if kind == 'evolution-unsized-init' else 'sized-initializer'
+    rec.case(f'{pre}.next-proposal-generation/{tag}', key, got[1] == nxt[2],
+             f'generation_id of the next proposal: recovered {got[1]}, uninterrupted {nxt[2]}',
+             wit('next_gen'))
 
 
 def _drv_evo(rec, pre, configs, tier, seed, n, dedup):
-  for kind, algo_expr, multi, spaces in configs:
-    for sp in spaces:
-      space_expr = SPACES[sp]
-      r = rng(seed, f'c15-evo-{algo_expr}-{sp}')
-      rewards = _rewards(n + 2, multi, r)
-      for pname, pcls, events in _patterns(n, tier, seed, f'{algo_expr}-{sp}'):
-        run = rec.guard(f'{pre}.uninterrupted-run-error', (algo_expr, sp, pname),
-                        lambda: _Run(algo_expr, space_expr, events, rewards),
-                        witness=f'# uninterrupted run of {algo_expr} on {space_expr} raised')
-        if run is None or run is False:
+  quick = tier == 'quick'
+  for kind, algo_expr, multi, single, sp, pname, events in _evo_combos(configs, tier, seed, n):
+    space_expr = SPACES[sp]
+    r = rng(seed, f'c15-evo-{algo_expr}-{sp}')
+    rewards = _rewards(n + 2, multi, r)
+    run = rec.guard(f'{pre}.uninterrupted-run-error', (algo_expr, sp, pname),
+                    lambda: _Run(algo_expr, space_expr, events, rewards),  # pylint: disable=cell-var-from-loop
+                    witness=f'# uninterrupted run of {algo_expr} on {space_expr} raised')
+    if run is None or run is False:
+      continue
+    for ci, snap in enumerate(run.snaps):
+      cls = _classify(snap['events'])   # class of the prefix actually executed
+      variants = ['crash']
+      if cls != 'out-of-order':
+        # Without the feedback sequence numbers the history does not tell the
+        # feedback order, so these variants are limited to in-order feedback.
+        if not quick or ci % 3 == 0:
+          variants.append('proposal')
+        if snap['last_fed'] is not None and (not quick or ci % 3 == 1):
+          variants.append('mixed')
+      nxt = None
+      if ci + 1 < len(run.snaps) and run.snaps[ci + 1]['proposed'] is not None:
+        nxt = run.snaps[ci + 1]['proposed']
+      for variant in variants:
+        key = (algo_expr, sp, pname, ci, variant)
+        hist = _history(run, snap, variant)
+        wit = (lambda check, _s=snap, _v=variant:
+               _witness(space_expr, algo_expr, _s, _v, check))  # pylint: disable=cell-var-from-loop
+        try:
+          b = _recovered(algo_expr, run.space, hist)
+        except Exception as e:  # pylint: disable=broad-except
+          rec.case(f'{pre}.recover-raises/{_order(cls)}', key, False,
+                   f'recover raised {type(e).__name__}: {e}', wit('counts'))
           continue
-        for ci, snap in enumerate(run.snaps):
-          # Reclassify by the prefix actually executed.
-          cls = _classify(snap['events'])
-          variants = ['crash']
-          if cls != 'out-of-order':
-            if tier != 'quick' or ci % 2 == 0:
-              variants.append('proposal')
-            if snap['last_fed'] is not None and (tier != 'quick' or ci % 2 == 1):
-              variants.append('mixed')
-          nxt = None
-          if ci + 1 < len(run.snaps) and run.snaps[ci + 1]['proposed'] is not None:
-            nxt = run.snaps[ci + 1]['proposed']
-          for variant in variants:
-            key = (algo_expr, sp, pname, ci, variant)
-            vpre = pre if variant == 'crash' else f'{pre}.metadata-as-of-proposal'
-            hist = _history(run, snap, variant)
-            try:
-              b = _recovered(algo_expr, run.space, hist)
-            except Exception as e:  # pylint: disable=broad-except
-              rec.case(f'{vpre}.recover-raises/{cls}', key, False,
-                       f'recover raised {type(e).__name__}: {e}',
-                       _witness(space_expr, algo_expr, snap, variant, 'counts'))
-              continue
-            _evo_checks(rec, vpre, kind, cls, key, snap['obs'], _observe(b), snap, nxt,
-                        space_expr, algo_expr, variant, b, dedup)
+        _evo_checks(rec, pre, kind, single, cls, key, snap['obs'], _observe(b), snap, nxt,
+                    b, wit, dedup)
 
 
 def drv_recover_evolution(tier, seed):
-  n = 9 if tier == 'quick' else 14
+  n = 8 if tier == 'quick' else 14
   rec = Recorder(
       'C15', 'recover(): regularized_evolution / hill_climb / nsga2 / neat / Evolution',
       scope=('regularized_evolution(pop 3-5), hill_climb(batch 1-3), nsga2(pop 2-3, 2 objectives), '
-             'neat(pop 3-4), Evolution with Sweeping initialiser (sized and until exhausted); '
-             'Uniform mutator; spaces 2x3, conditional, manyof, oneof x float, oneof3; '
-             f'N<={n} proposals; patterns lockstep/lag/burst/tail/holes/reversed/late; crash after '
-             'EVERY event prefix; history through pg JSON; DNA metadata as of crash, as of proposal, '
-             'mixed; compares counts, population+fitness, member ids, num_generations, NSGA2 elites, '
-             'id/phase of the next proposal'))
+             'neat(pop 3-4), Evolution with a Sweeping initialiser (sized / until exhausted); Uniform '
+             'mutator; spaces 2x3, conditional, manyof, oneof x float, oneof3 (quick: 1 space per '
+             f'configuration, rotated by seed); N<={n} proposals; patterns: one in-order (lockstep/'
+             'lag/burst/tail), holes, one out-of-order (quick) or all + seeded random interleavings '
+             '(thorough); crash after EVERY event prefix; history through pg JSON; DNA metadata as of '
+             'crash / as of proposal / mixed; compares counts, population+fitness, member ids, '
+             'num_generations, NSGA2 elites, NEAT species, id/phase of the next proposal'))
   _drv_evo(rec, 'evo', _evo_configs(tier, seed), tier, seed, n, dedup=False)
   return rec.result()
 
 
 def drv_recover_dedup_evolution(tier, seed):
-  n = 8 if tier == 'quick' else 12
+  n = 7 if tier == 'quick' else 12
   rec = Recorder(
       'C15', 'recover(): Deduping over evolution algorithms',
-      scope=('Deduping(regularized_evolution|hill_climb|nsga2|neat) with hash_fn, max_duplicates 1-2, '
-             'auto_reward_fn (controller-side rewards fed back immediately like pg.sample does); '
-             f'spaces oneof3, 2x3 (thorough: more); N<={n}; same patterns/crash points/JSON as the '
-             'evolution driver; compares outer and inner counts, inner population, dedup memory '
-             '(key -> rewards), id/phase of the next proposal'))
+      scope=('Deduping(regularized_evolution|hill_climb; thorough: + neat) with hash_fn, '
+             'max_duplicates 1-2, auto_reward_fn (controller-side rewards are fed back immediately, '
+             f'as pg.sample does); spaces oneof3, 2x3, conditional, manyof; N<={n}; patterns, crash '
+             'points and JSON as in the evolution driver; compares outer and inner counts, inner '
+             'population, dedup memory (key -> rewards), id/phase of the next proposal'))
   _drv_evo(rec, 'dedup-evo', _dedup_evo_configs(tier, seed), tier, seed, n, dedup=True)
   return rec.result()
 
